@@ -63,6 +63,8 @@ type Reply struct {
 type Step struct {
 	Op    string          `json:"op"`
 	Log   string          `json:"log"`
+	Sp    string          `json:"sp"`    // spelling of the log id: "canon" or an alias label
+	Fault string          `json:"fault"` // storage fault met by this request: none, commit, write, read, ctx
 	Cand  Cand            `json:"cand"`
 	Pf    string          `json:"pf"`
 	Reply Reply           `json:"reply"`
@@ -91,17 +93,26 @@ func NewWorld(forkAt, maxSize int, rng *mrand.Rand) (*World, error) {
 	w := &World{ForkAt: forkAt, MaxSize: maxSize, Keys: map[string]*ecdsa.PrivateKey{}, IDs: map[string]string{},
 		IDBytes: map[string][]byte{}, Trees: map[string]*ref.Tree{}, rawMemo: map[string][]byte{}, sigMemo: map[string]Cand{}, rng: rng}
 	for _, n := range []string{"L1", "L2", "LX", "bad"} {
-		k, err := ecdsa.GenerateKey(elliptic.P256(), rand.Reader)
-		if err != nil {
-			return nil, err
+		for {
+			k, err := ecdsa.GenerateKey(elliptic.P256(), rand.Reader)
+			if err != nil {
+				return nil, err
+			}
+			w.Keys[n] = k
+			id, _, err := ref.KeyID(&k.PublicKey)
+			if err != nil {
+				return nil, err
+			}
+			w.IDBytes[n] = id
+			w.IDs[n] = base64.StdEncoding.EncodeToString(id)
+			// the URL-safe spelling must differ from the configured one
+			if strings.ContainsAny(w.IDs[n], "+/") {
+				break
+			}
 		}
-		w.Keys[n] = k
-		id, _, err := ref.KeyID(&k.PublicKey)
-		if err != nil {
-			return nil, err
-		}
-		w.IDBytes[n] = id
-		w.IDs[n] = base64.StdEncoding.EncodeToString(id)
+	}
+	if err := w.checkSpellings(); err != nil {
+		return nil, err
 	}
 	wk, err := ecdsa.GenerateKey(elliptic.P256(), rand.Reader)
 	if err != nil {
@@ -138,6 +149,104 @@ func NewWorld(forkAt, maxSize int, rng *mrand.Rand) (*World, error) {
 	}
 	return w, nil
 }
+
+// Aliases are the spelling labels of Witness.tla other than "canon".
+var Aliases = []string{"bits", "nl", "nopad", "urlsafe", "space"}
+
+const b64alphabet = "ABCDEFGHIJKLMNOPQRSTUVWXYZabcdefghijklmnopqrstuvwxyz0123456789+/"
+
+// Spell materializes the spelling sp of log's id; variant selects among the strings of one class.
+//
+//	canon    the string the witness is configured with
+//	bits     the two unused bits of the last data character set (3 strings; same bytes for a non-strict decoder)
+//	nl       CR / LF inside or after the string (ignored by encoding/base64)
+//	nopad    the padding dropped (same bytes for a raw decoder)
+//	urlsafe  the URL-safe alphabet (same bytes for a URL decoder)
+//	space    a blank before or after (same string after trimming)
+func (w *World) Spell(log, sp string, variant int) string {
+	id := w.IDs[log]
+	if variant < 0 {
+		variant = -variant
+	}
+	switch sp {
+	case "", "canon":
+		return id
+	case "bits":
+		i := strings.IndexByte(b64alphabet, id[42])
+		return id[:42] + string(b64alphabet[i|(1+variant%3)]) + "="
+	case "nl":
+		switch variant % 4 {
+		case 0:
+			return id + "\n"
+		case 1:
+			p := 1 + variant/4%42
+			return id[:p] + "\n" + id[p:]
+		case 2:
+			p := 1 + variant/4%42
+			return id[:p] + "\r\n" + id[p:]
+		}
+		return "\n" + id
+	case "nopad":
+		return strings.TrimRight(id, "=")
+	case "urlsafe":
+		return strings.NewReplacer("+", "-", "/", "_").Replace(id)
+	case "space":
+		if variant%2 == 0 {
+			return id + " "
+		}
+		return " " + id
+	}
+	panic(infra("unknown spelling " + sp))
+}
+
+// checkSpellings: every alias is another string, and a string that some lenient reader takes for the same 32 bytes.
+func (w *World) checkSpellings() error {
+	for n, id := range w.IDs {
+		if len(id) != 44 || id[43] != '=' {
+			return fmt.Errorf("unexpected log id form %q", id)
+		}
+		for _, sp := range Aliases {
+			for v := 0; v < 12; v++ {
+				a := w.Spell(n, sp, v)
+				if a == id {
+					return fmt.Errorf("spelling %s/%d of %q is the configured string", sp, v, id)
+				}
+				if got := w.LogOfID(a); got != n {
+					return fmt.Errorf("spelling %s/%d of %s (%q) is not recognised as that log (%q)", sp, v, n, a, got)
+				}
+			}
+		}
+	}
+	return nil
+}
+
+// LogOfID names the log whose 32-byte id a string spells, for the most lenient reader the harness knows
+// (blanks and line ends dropped; standard or URL-safe alphabet; padded or not; trailing bits ignored).
+// "" if none.  This is the identity the history of C19 is judged by.
+func (w *World) LogOfID(s string) string {
+	t := strings.Map(func(r rune) rune {
+		if r == ' ' || r == '\n' || r == '\r' || r == '\t' {
+			return -1
+		}
+		return r
+	}, s)
+	t = strings.TrimRight(t, "=")
+	for _, enc := range []*base64.Encoding{base64.RawStdEncoding, base64.RawURLEncoding} {
+		b, err := enc.DecodeString(t)
+		if err != nil {
+			continue
+		}
+		for n, id := range w.IDBytes {
+			if bytes.Equal(id, b) {
+				return n
+			}
+		}
+	}
+	return ""
+}
+
+// infra marks a panic that is a failure of the harness, not of the code under test.
+type infra string
 
 // Root of a candidate's tree head.
 func (w *World) Root(c Cand) []byte { return w.Trees[c.Fam].Root(c.Size) }
@@ -272,6 +381,76 @@ type Inst struct {
 	W      *wit.Witness
 	DB     *sql.DB
 	Router *mux.Router
+	DSN    string
+	other  *sql.DB // a second connection to the same database file, for lock faults
+}
+
+// FileDSN is the data source name of a file database on which lock faults can be injected: no busy
+// timeout, so that a statement meeting a lock fails at once instead of after 5 s (same outcome).
+func FileDSN(path string) string { return "file:" + path + "?_busy_timeout=0" }
+
+// Hold makes another connection take the lock that produces the storage fault and returns the
+// function releasing it.  ok=false: the lock could not be taken (the witness is inside a transaction).
+//
+//	commit  SHARED (open read transaction): the witness can read and INSERT, its COMMIT fails (SQLITE_BUSY)
+//	write   RESERVED (BEGIN IMMEDIATE): the witness can read, its INSERT fails
+//	read    EXCLUSIVE: every statement of the witness fails
+func (i *Inst) Hold(fault string) (release func(), ok bool) {
+	if fault == "none" || fault == "ctx" || fault == "" {
+		return func() {}, true
+	}
+	if !strings.HasPrefix(i.DSN, "file:") || strings.Contains(i.DSN, "mode=memory") {
+		panic(infra("lock faults need a file database, have " + i.DSN))
+	}
+	if i.other == nil {
+		db, err := sql.Open("sqlite3", i.DSN)
+		if err != nil {
+			panic(infra(err.Error()))
+		}
+		db.SetMaxOpenConns(1)
+		i.other = db
+	}
+	ctx := context.Background()
+	conn, err := i.other.Conn(ctx)
+	if err != nil {
+		panic(infra(err.Error()))
+	}
+	var stmts []string
+	switch fault {
+	case "commit":
+		stmts = []string{"BEGIN", "SELECT count(*) FROM sths"}
+	case "write":
+		stmts = []string{"BEGIN IMMEDIATE"}
+	case "read":
+		stmts = []string{"BEGIN EXCLUSIVE"}
+	default:
+		panic(infra("unknown fault " + fault))
+	}
+	for k, q := range stmts {
+		var err error
+		if strings.HasPrefix(q, "SELECT") {
+			var n int
+			err = conn.QueryRowContext(ctx, q).Scan(&n)
+		} else {
+			_, err = conn.ExecContext(ctx, q)
+		}
+		if err != nil {
+			if k > 0 {
+				_, _ = conn.ExecContext(ctx, "ROLLBACK")
+			}
+			conn.Close()
+			if strings.Contains(err.Error(), "locked") || strings.Contains(err.Error(), "busy") {
+				return func() {}, false
+			}
+			panic(infra("cannot take the " + fault + " lock: " + err.Error()))
+		}
+	}
+	return func() {
+		if _, err := conn.ExecContext(ctx, "ROLLBACK"); err != nil {
+			panic(infra("cannot release the " + fault + " lock: " + err.Error()))
+		}
+		conn.Close()
+	}, true
 }
 
 // NewInst opens a database the way impl.Main does and builds a witness knowing L1 and L2.
@@ -297,11 +476,34 @@ func (w *World) NewInst(dsn string, maxConns int) (*Inst, error) {
 	}
 	r := mux.NewRouter().UseEncodedPath()
 	wit.NewServer(wt).RegisterHandlers(r)
-	return &Inst{W: wt, DB: db, Router: r}, nil
+	return &Inst{W: wt, DB: db, Router: r, DSN: dsn}, nil
 }
 
 // Close releases the database.
-func (i *Inst) Close() { i.DB.Close() }
+func (i *Inst) Close() {
+	if i.other != nil {
+		i.other.Close()
+	}
+	i.DB.Close()
+}
+
+// Rows reads the whole table: row key (the log id string as stored) -> stored bytes.
+func (i *Inst) Rows() (map[string][]byte, error) {
+	rows, err := i.DB.Query("SELECT logID, sth FROM sths")
+	if err != nil {
+		return nil, err
+	}
+	defer rows.Close()
+	out := map[string][]byte{}
+	for rows.Next() {
+		var k, v []byte
+		if err := rows.Scan(&k, &v); err != nil {
+			return nil, err
+		}
+		out[string(k)] = v
+	}
+	return out, rows.Err()
+}
 
 // Row reads the stored bytes for a log directly from the table.
 func (i *Inst) Row(logID string) ([]byte, bool, error) {
@@ -385,11 +587,18 @@ func (w *World) Classify(body []byte, want Cand, target string) (kind, note stri
 }
 
 // DoDirect executes a step through the Go API.
-func (w *World) DoDirect(in *Inst, s Step, held Cand) Got {
-	id := w.IDs[s.Log]
+// variant selects the concrete string of the step's spelling class.
+func (w *World) DoDirect(in *Inst, s Step, held Cand, variant int) Got {
+	id := w.Spell(s.Log, s.Sp, variant)
 	switch s.Op {
 	case "Update":
-		body, err := in.W.Update(context.Background(), id, w.Raw(s.Cand, s.Log), w.Proof(s.Pf, held, s.Cand))
+		ctx := context.Background()
+		if s.Fault == "ctx" {
+			c, cancel := context.WithCancel(ctx)
+			cancel()
+			ctx = c
+		}
+		body, err := in.W.Update(ctx, id, w.Raw(s.Cand, s.Log), w.Proof(s.Pf, held, s.Cand))
 		g := Got{Code: codeOf(err), Body: body}
 		g.Kind, g.Note = w.Classify(body, s.Reply.STH, s.Log)
 		return g
@@ -400,9 +609,19 @@ func (w *World) DoDirect(in *Inst, s Step, held Cand) Got {
 		return g
 	case "GetLogs":
 		ids, err := in.W.GetLogs()
-		return Got{Code: codeOf(err), Kind: "logs", Logs: w.names(ids)}
+		if err != nil {
+			return Got{Code: codeOf(err), Kind: "none", Note: noteIf(len(ids) > 0, "GetLogs returned an error and a list")}
+		}
+		return Got{Code: "OK", Kind: "logs", Logs: w.names(ids)}
 	}
-	panic("unknown op " + s.Op)
+	panic(infra("unknown op " + s.Op))
+}
+
+func noteIf(c bool, s string) string {
+	if c {
+		return s
+	}
+	return ""
 }
 
 func (w *World) names(ids []string) []string {
@@ -423,8 +642,8 @@ func (w *World) names(ids []string) []string {
 // DoHTTP executes a step through the HTTP server wrapping the witness; the status is mapped back
 // to the specification's code the way server.go documents it (409 = FailedPrecondition with the
 // held STH in the body, 404 on get-sth for nothing stored, 500 otherwise).
-func (w *World) DoHTTP(in *Inst, s Step, held Cand) (Got, int) {
-	id := url.PathEscape(w.IDs[s.Log])
+func (w *World) DoHTTP(in *Inst, s Step, held Cand, variant int) (Got, int) {
+	id := url.PathEscape(w.Spell(s.Log, s.Sp, variant))
 	var req *http.Request
 	switch s.Op {
 	case "Update":
@@ -434,6 +653,11 @@ func (w *World) DoHTTP(in *Inst, s Step, held Cand) (Got, int) {
 		req = httptest.NewRequest("GET", fmt.Sprintf(wit.HTTPGetSTH, id), nil)
 	case "GetLogs":
 		req = httptest.NewRequest("GET", wit.HTTPGetLogs, nil)
+	}
+	if s.Fault == "ctx" {
+		c, cancel := context.WithCancel(req.Context())
+		cancel()
+		req = req.WithContext(c)
 	}
 	rec := httptest.NewRecorder()
 	in.Router.ServeHTTP(rec, req)
@@ -450,9 +674,11 @@ func (w *World) DoHTTP(in *Inst, s Step, held Cand) (Got, int) {
 	}
 	if s.Op == "GetLogs" {
 		var ids []string
-		if rec.Code == 200 {
-			_ = json.Unmarshal(rec.Body.Bytes(), &ids)
+		if rec.Code != 200 {
+			g.Kind = "none"
+			return g, rec.Code
 		}
+		_ = json.Unmarshal(rec.Body.Bytes(), &ids)
 		g.Kind, g.Logs = "logs", w.names(ids)
 		return g, rec.Code
 	}
@@ -462,6 +688,49 @@ func (w *World) DoHTTP(in *Inst, s Step, held Cand) (Got, int) {
 		g.Kind = "none" // error text, not an STH
 	}
 	return g, rec.Code
+}
+
+// Cosigned reads a reply body on its own terms (no expectation from the specification): if it is an STH
+// carrying witness signatures, it names the log by the 32-byte id inside, and checks the log's
+// signature and every cosignature with std crypto.
+type Cosigned struct {
+	Log  string // name of the log whose id the STH carries ("" if none of the world's)
+	Size uint64
+	Root []byte
+	Note string // non-empty: a signature does not verify
+}
+
+func (w *World) Cosigned(body []byte) (Cosigned, bool) {
+	var cs struct {
+		ct.SignedTreeHead
+		WitnessSigs []ct.DigitallySigned `json:"witness_signatures"`
+	}
+	if len(body) == 0 || json.Unmarshal(body, &cs) != nil || len(cs.WitnessSigs) == 0 {
+		return Cosigned{}, false
+	}
+	out := Cosigned{Size: cs.TreeSize, Root: append([]byte{}, cs.SHA256RootHash[:]...)}
+	for n, id := range w.IDBytes {
+		if bytes.Equal(id, cs.LogID[:]) {
+			out.Log = n
+		}
+	}
+	if out.Log == "" {
+		out.Note = "cosigned STH carries a log id that is none of the world's"
+		return out, true
+	}
+	dsLog := ref.DigitallySigned(byte(cs.TreeHeadSignature.Algorithm.Hash), byte(cs.TreeHeadSignature.Algorithm.Signature), cs.TreeHeadSignature.Signature)
+	if err := ref.Verify(&w.Keys[out.Log].PublicKey, ref.STHSignatureInput(cs.Timestamp, cs.TreeSize, cs.SHA256RootHash[:]), dsLog); err != nil {
+		out.Note = "cosigned STH does not carry a valid signature of the log: " + err.Error()
+		return out, true
+	}
+	input := ref.Cat(ref.U(cs.TreeSize, 8), ref.U(cs.Timestamp, 8), cs.SHA256RootHash[:], dsLog, cs.LogID[:])
+	for _, sg := range cs.WitnessSigs {
+		ds := ref.DigitallySigned(byte(sg.Algorithm.Hash), byte(sg.Algorithm.Signature), sg.Signature)
+		if err := ref.Verify(&w.WitKey.PublicKey, input, ds); err != nil {
+			out.Note = "witness cosignature does not verify over the accompanying STH: " + err.Error()
+		}
+	}
+	return out, true
 }
 
 // CandOfBody finds the candidate whose log signature a reply body carries.
